@@ -47,7 +47,20 @@ class Registry:
                 c["module"] = m
                 self.contracts[c["name"]] = c
             for l in getattr(mod, "LEMMAS", []):
+                l = dict(l)
+                for key in ("requires", "ensures"):
+                    v = l.get(key, {})
+                    if isinstance(v, list):
+                        v = {f"c{i + 1}": x for i, x in enumerate(v)}
+                    l[key] = v
                 self.lemmas[l["name"]] = l
+                # a lemma is verified like any function: its proof (ghost loop / hints) is the body, its statement the contract
+                src = "def %s(%s):\n%s\n    return None\n" % (l["name"], ", ".join(l["params"]),
+                                                                 "".join("    " + ln + "\n" for ln in (l.get("proof") or "pass").split("\n")))
+                self.funcs["lemma." + l["name"]] = (m, ast.parse(src).body[0])
+                self.contracts["lemma." + l["name"]] = dict(name="lemma." + l["name"], module=m, params=l["params"], split=l.get("split", {}),
+                                                            requires=l["requires"], ensures=l["ensures"], raises={}, returns="none",
+                                                            loops=l.get("loops", {}), lemmas=l.get("uses", []), variant_of="lemma")
             for name, src in getattr(mod, "SOURCE", {}).items():
                 # harness / lemma functions written in the same Python subset (not repository code)
                 t = ast.parse(src)
